@@ -358,6 +358,9 @@ func c20GenSpec(rng *rand.Rand, tricky bool) c20Spec {
 		sp.V1 = append(sp.V1, g.relation("v1", have, idPK)...)
 	}
 	// ---- v2 = v1 + additions
+	// (tags are only ever added to fields that OWN their column: a tag on a field that lost its column is either ignored or
+	// lands on the owner's column through ParseIndexes — a change of the owner's declaration, not an addition; c20_cols.go)
+	lost := c20Losers(sp.V1)
 	sp.V2 = append([]c20Field(nil), sp.V1...)
 	adds := 1 + rng.Intn(3)
 	for a := 0; a < adds; a++ {
@@ -376,7 +379,7 @@ func c20GenSpec(rng *rand.Rand, tricky bool) c20Spec {
 			for tries := 0; tries < 6; tries++ {
 				i := rng.Intn(len(sp.V1))
 				f := sp.V2[i]
-				if c20IsRel(f.Kind) || c20Embeds(f.Kind) || f.Kind == "audit" || f.Kind == "stamp" || c20HasTag(f.Tag, "index") || c20HasTag(f.Tag, "uniqueindex") || c20HasTag(f.Tag, "-") {
+				if lost[f.Name] != "" || c20IsRel(f.Kind) || c20Embeds(f.Kind) || f.Kind == "audit" || f.Kind == "stamp" || c20HasTag(f.Tag, "index") || c20HasTag(f.Tag, "uniqueindex") || c20HasTag(f.Tag, "-") {
 					continue
 				}
 				if f.Kind != "bool" && rng.Intn(2) == 0 {
@@ -392,7 +395,7 @@ func c20GenSpec(rng *rand.Rand, tricky bool) c20Spec {
 			for tries := 0; tries < 6; tries++ {
 				i := rng.Intn(len(sp.V1))
 				f := sp.V2[i]
-				if c20IsRel(f.Kind) || c20Embeds(f.Kind) || f.Kind == "audit" || f.Kind == "stamp" || c20HasTag(f.Tag, "check") || c20HasTag(f.Tag, "-") {
+				if lost[f.Name] != "" || c20IsRel(f.Kind) || c20Embeds(f.Kind) || f.Kind == "audit" || f.Kind == "stamp" || c20HasTag(f.Tag, "check") || c20HasTag(f.Tag, "-") {
 					continue
 				}
 				sp.V2[i].Tag = c20AddTag(f.Tag, g.checkFor(c20Class(f.Kind), c20ColName(f.Name, f.Tag), rng.Intn(2) == 0, f.Name))
@@ -403,7 +406,7 @@ func c20GenSpec(rng *rand.Rand, tricky bool) c20Spec {
 			for tries := 0; tries < 6; tries++ {
 				i := rng.Intn(len(sp.V1))
 				f := sp.V2[i]
-				if c20IsRel(f.Kind) || c20Embeds(f.Kind) || f.Kind == "audit" || f.Kind == "stamp" || f.Kind == "bool" || c20HasTag(f.Tag, "unique") || c20HasTag(f.Tag, "primarykey") || c20HasTag(f.Tag, "-") || f.Name == "ID" {
+				if lost[f.Name] != "" || c20IsRel(f.Kind) || c20Embeds(f.Kind) || f.Kind == "audit" || f.Kind == "stamp" || f.Kind == "bool" || c20HasTag(f.Tag, "unique") || c20HasTag(f.Tag, "primarykey") || c20HasTag(f.Tag, "-") || f.Name == "ID" {
 					continue
 				}
 				sp.V2[i].Tag = c20AddTag(f.Tag, "unique")
@@ -413,7 +416,7 @@ func c20GenSpec(rng *rand.Rand, tricky bool) c20Spec {
 		case 7, 8: // a constraint / index added to an EXISTING field whose column is renamed (name derivations must agree)
 			var cand []int
 			for i, f := range sp.V1 {
-				if !c20IsRel(f.Kind) && !c20Embeds(f.Kind) && f.Kind != "audit" && f.Kind != "stamp" && f.Kind != "bool" && c20HasTag(f.Tag, "column") && !c20HasTag(f.Tag, "primarykey") && f.Name != "ID" {
+				if lost[f.Name] == "" && !c20IsRel(f.Kind) && !c20Embeds(f.Kind) && f.Kind != "audit" && f.Kind != "stamp" && f.Kind != "bool" && c20HasTag(f.Tag, "column") && !c20HasTag(f.Tag, "primarykey") && f.Name != "ID" {
 					cand = append(cand, i)
 				}
 			}
